@@ -8,8 +8,8 @@ over decision sequences, the function is re-executed per path, a branch is taken
 query ``pc /\\ side /\\ not claim``: unsat = discharged for every real value on that path, sat = model.
 
 Arithmetic is exact real arithmetic (QF_NRA).  sqrt(t) is a fresh y with y >= 0, y*y = t; exp(t) a fresh
-positive variable per syntactically distinct argument, with exp(0) = 1 and monotonicity facts between the
-exp variables of one path added as side constraints (over-approximation: "holds" is sound, a model may be
+positive variable per distinct argument polynomial, with exp(0) = 1, exp(t) < 1 for t < 0 and exp(t) > 1 for
+t > 0 added as side constraints (over-approximation: "holds" is sound, a model may be
 spurious and is only reported if it replays natively in floating point).
 """
 import fractions
@@ -54,6 +54,7 @@ class Ctx:
         self.claims = 0
         self.timeout_ms = timeout_ms
         self.pins = {}
+        self.exp_pairwise = False    # pairwise monotonicity facts between exp variables (costly in NRA)
 
     # -- solver
     def _check(self, *extra):
@@ -411,32 +412,76 @@ class SymReal:
 
     def sqrt(self):
         c = Ctx.cur
-        key = z3.simplify(self.e).sexpr()
-        if key not in c.sqrttab:
-            v = z3.Real('sqrt!%d' % len(c.sqrttab))
-            c.sqrttab[key] = v
-            c.side += [v >= 0, v * v == self.e]
-        return SymReal(c.sqrttab[key])
+        arg = z3.simplify(self.e, som=True)
+        found = _lookup(c.sqrttab, arg)
+        if found is None:
+            found = z3.Real('sqrt!%d' % sum(len(v) for v in c.sqrttab.values()))
+            c.sqrttab.setdefault(_fingerprint(arg), []).append((arg, found))
+            c.side += [found >= 0, found * found == arg]
+        return SymReal(found)
 
     def exp(self):
         c = Ctx.cur
-        arg = z3.simplify(self.e)
-        key = arg.sexpr()
-        if key not in c.exptab:
-            v = z3.Real('exp!%d' % len(c.exptab))
+        arg = z3.simplify(self.e, som=True)
+        found = _lookup(c.exptab, arg)
+        if found is None:
+            v = z3.Real('exp!%d' % sum(len(x) for x in c.exptab.values()))
             c.side.append(v > 0)
             # facts every exponential satisfies; enough for the comparisons the code under test makes
-            c.side.append(z3.Implies(arg <= 0, v <= 1))
-            c.side.append(z3.Implies(arg >= 0, v >= 1))
+            c.side.append(z3.Implies(arg < 0, v < 1))
+            c.side.append(z3.Implies(arg > 0, v > 1))
             c.side.append(z3.Implies(arg == 0, v == 1))
-            for okey, (oarg, ov) in c.exptab.items():
-                c.side.append(z3.Implies(arg <= oarg, v <= ov))
-                c.side.append(z3.Implies(arg >= oarg, v >= ov))
-            c.exptab[key] = (arg, v)
-        return SymReal(c.exptab[key][1])
+            c.exptab.setdefault(_fingerprint(arg), []).append((arg, v))
+            found = v
+        return SymReal(found)
 
     def __repr__(self):
         return 'SymReal(%s)' % self.e
+
+
+
+_FP_VALUES = {}
+
+
+def _vars_of(expr, acc=None, seen=None):
+    if acc is None:
+        acc, seen = {}, set()
+    eid = expr.get_id()
+    if eid in seen:
+        return acc
+    seen.add(eid)
+    if z3.is_const(expr) and expr.decl().kind() == z3.Z3_OP_UNINTERPRETED:
+        acc[str(expr)] = expr
+    for child in expr.children():
+        _vars_of(child, acc, seen)
+    return acc
+
+
+def _fingerprint(expr):
+    """Values of a term at two fixed pseudo-random rational points: equal terms have equal fingerprints."""
+    import hashlib
+    variables = _vars_of(expr)
+    out = []
+    for salt in (b'a', b'b'):
+        subs = []
+        for name, var in variables.items():
+            digest = int(hashlib.md5(salt + name.encode()).hexdigest(), 16)
+            subs.append((var, z3.RealVal(digest % 10007 + 1) / z3.RealVal(digest % 89 + 7)))
+        out.append(z3.simplify(z3.substitute(expr, *subs)).sexpr())
+    return tuple(out)
+
+
+def _lookup(table, arg):
+    """Entry of a (fingerprint -> [(arg, var)]) table whose argument is provably equal to `arg`, else None."""
+    for oarg, ov in table.get(_fingerprint(arg), []):
+        if z3.is_true(z3.simplify(oarg == arg)) or z3.simplify(oarg - arg, som=True).sexpr() in ('0.0', '0'):
+            return ov
+        solver = z3.Solver()
+        solver.set('timeout', 2000)
+        solver.add(oarg != arg)
+        if solver.check() == z3.unsat:
+            return ov
+    return None
 
 
 def _is_sym(x):
@@ -491,8 +536,9 @@ class SymArray(np.ndarray):
             return NotImplemented
         if method != '__call__':
             return NotImplemented
-        if ufunc is np.isnan:
-            return np.zeros(np.shape(ins[0]), dtype=bool)       # proxies are reals: never NaN
+        if ufunc is np.isnan:     # proxies are reals (never NaN); concrete floats in the array are tested as usual
+            return np.frompyfunc(lambda x: (not _is_sym(x)) and isinstance(x, float) and math.isnan(x), 1, 1)(
+                np.asarray(ins[0], dtype=object)).astype(bool)
         cmp = _cmp_table()
         if ufunc is np.sqrt:
             r = np.frompyfunc(lambda x: x.sqrt() if isinstance(x, SymReal) else np.sqrt(x), 1, 1)(ins[0])
